@@ -818,6 +818,11 @@ class Variable(CanBehaveLikeAVariable[T]):
     An expression of the constraints added from the keyword arguments of the variable.
     """
     _evaluating_kwargs_expression_: bool = field(default=False, init=False)
+    _ranges_over_registry_: bool = field(default=False, init=False)
+    """
+    Whether this variable was declared without a domain and therefore ranges over the instances of its type (and of its
+    subclasses) registered so far. The registry is read whenever the variable is enumerated, never captured.
+    """
     """
     A flag indicating that the kwargs expression is currently being evaluated so do not evaluate them again, and instead
     yield from the domain.
@@ -874,7 +879,7 @@ class Variable(CanBehaveLikeAVariable[T]):
                     yield sources
             else:
                 yield sources
-        elif self._domain_ and not self._is_inferred_:
+        elif (self._domain_ or self._ranges_over_registry_) and not self._is_inferred_:
             if self._kwargs_expression_ and not self._evaluating_kwargs_expression_:
                 # because when kwargs expression exists,
                 # it will constrain the domain further to fit the kwargs provided.
@@ -902,8 +907,7 @@ class Variable(CanBehaveLikeAVariable[T]):
         self._evaluating_kwargs_expression_ = False
 
     def _update_domain_and_kwargs_expression_(self):
-        self._domain_source_ = From(self._cache_values_)
-        self._update_domain_(self._domain_source_.domain)
+        self._ranges_over_registry_ = True
         if self._kwargs_:
             parents = [p for p in self._node_.parents]
             self._kwargs_expression_, attributes = properties_to_expression_tree(self, self._child_vars_)
@@ -1079,7 +1083,9 @@ class Variable(CanBehaveLikeAVariable[T]):
         self._node_.color = value
 
     def __iter__(self):
-        for v in self._domain_:
+        # a snapshot of the registry as it is now (instances may be constructed while the values are being consumed)
+        domain = list(self._cache_values_) if self._ranges_over_registry_ else self._domain_
+        for v in domain:
             yield {self._id_: HashedValue(v)}
 
     def __repr__(self):
